@@ -144,6 +144,7 @@ const (
 	ErrRegexUnexpectedStart ErrorCode = 1500
 	ErrRegexUnexpectedEnd   ErrorCode = 1501
 	ErrRegexInvalid         ErrorCode = 1502
+	ErrRegexExample         ErrorCode = 1503
 
 	// Enum.
 
@@ -275,6 +276,7 @@ var errorFormat = map[ErrorCode]string{
 	ErrRegexUnexpectedStart:               "Regex should starts with '/' character, but found %s",
 	ErrRegexUnexpectedEnd:                 "Regex should ends with '/' character, but found %s",
 	ErrRegexInvalid:                       "Invalid regex %s",
+	ErrRegexExample:                       "Can't generate an example for regex %s",
 
 	// enum
 	ErrEnumArrayExpected:  `An array was expected as a value for the "enum"`,
